@@ -95,7 +95,7 @@ PROPS["C12"] = dict(
 
 
 WAL_EXPL = "Bounded symbolic execution of the real durability protocol over the engine's file-system model with process crashes: start-up (NewWALFile, wal.Finder, WALCleaner.CleanupOldWALFiles -> TakeOverWALFile, Replay, replayTGData, Delete/wal.Move), Writer.WriteCSM -> FlushToWAL/FlushCommandsToWAL (WAL records, MD5, fsync, primary writes), CreateCheckpoint, and the read path of C08/C09 for the oracle. Scenario: process 1 creates the bucket, acknowledges write A and checkpoints; process 2 starts, issues writes B and C (optionally a checkpoint in between) and is killed before any one of its file-mutating system calls (every prefix, including none and all); process 3 starts, replays and is queried. Rows' intervals are case-split (same / different interval), seconds and values symbolic. "
-WAL_BOUNDS = ["one bucket, fixed-length (1D, int32 column) or variable-length (1D, int32 + Nanoseconds), compression disabled", "3 write requests of one row each over 2 candidate intervals (all 8 placements), second in the interval symbolic, values pairwise distinct int32", "optional checkpoint between the 2nd and 3rd write", "crash point: before every file-mutating call of process 2 (create, write, fsync, sync, truncate, rename, unlink, mkdir), plus no crash"]
+WAL_BOUNDS = ["one bucket, fixed-length (1D, int32 column) or variable-length (1D, int32 + Nanoseconds), compression disabled", "3 write requests of one row each over 2 candidate intervals (all 8 placements; the third may instead go to the next year, whose file is created by that write), second in the interval symbolic, values pairwise distinct int32", "optional checkpoint between the 2nd and 3rd write", "crash point: before every file-mutating call of process 2 (create, write, fsync, sync, truncate, rename, unlink, mkdir), plus no crash"]
 WAL_OUT = ["more than one bucket / three transactions; WAL rotation (C05)", "power loss (C04)", "snappy-compressed variable-length storage", "crashes inside process 1 or during process 3's own recovery (C34)"]
 
 PROPS["C01"] = dict(explanation=WAL_EXPL + "Oracle C01: every acknowledged fixed-length interval holds its last acknowledged value or that of the in-flight write; every acknowledged variable-length record is present.",
@@ -119,3 +119,14 @@ PROPS["C05"] = dict(explanation=SYNC_EXPL + "C05: the process running the loop i
     runs=[dict(pkg="executor", files=["c08_fixed.go", "c09_variable.go", "c11_range.go", "c01_walsim.go", "c35_syncwal.go"], entries=["VerifC05Events"], must_reach=["entered", "crashed", "queried"], opts=dict(timeout=60))],
     bounds=["quick: fixed-length bucket, all three writes in one interval, exactly 1 timer event before idle; thorough: fixed and variable, all placements, 0..3 timer events, shutdown with pending write", "crash before every file-mutating call of the loop process, plus no crash"],
     outside=["the recorded-trace formulation of the property: the implementation itself is executed instead of a model", "goroutine schedules finer than loop iterations", "replay order of several un-checkpointed transactions is exercised by C01 (two transactions without checkpoint)"], stubs=SYNC_STUBS, assumptions=COMMON_ASSUME)
+
+
+PROPS["C04"] = dict(explanation=WAL_EXPL.replace("with process crashes", "with power loss") + "Power-loss model: every file keeps the image of its last fsync (or of the last sync()) plus, quick tier, a prefix of the writes issued since (case split per file, so contents stay concrete) or, thorough tier, an arbitrary subset of them (one Boolean per write, all subsets decided in one query); files created, renamed or removed since the last barrier fork on kept/lost; a grown file keeps its new size or falls back. Oracle as C01.",
+    runs=[dict(pkg="executor", files=["c08_fixed.go", "c09_variable.go", "c11_range.go", "c01_walsim.go"], entries=["VerifC04Power"], must_reach=["entered", "crashed", "restarted", "queried"], opts=dict(timeout=60))],
+    bounds=["quick: fixed-length bucket, writes A and B in one interval, C there or in the next year (new file), optional checkpoint between B and C; thorough: as C01 incl. variable-length", "power fails before every file-mutating call of process 2 (plus: not at all)", "loss patterns: quick = per-file suffix of unsynced writes; thorough = every subset"],
+    outside=["torn single writes (a write is kept or lost as a whole)", "fsync(file) is taken to persist the file's directory entry too (ext4 behaviour)", "loss of directory entries of directories"], stubs=FS_STUBS + TICK_STUBS + ["power loss: see explanation"], assumptions=COMMON_ASSUME)
+
+PROPS["C34"] = dict(explanation="Bounded symbolic execution of start-up WAL clean-up (wal.Finder, WALCleaner.CleanupOldWALFiles, TakeOverWALFile, Replay, replayTGData, CreateCheckpoint, Delete, wal.Move) over the file-system model. (a) A previous process left a WAL with two committed, un-checkpointed transactions and lost its primary writes; a second process is killed before any file-mutating call of its own start-up (incl. inside replay, between the status updates and before the unlink); a third starts: both transactions are in the primary file in commit order, only its own WAL is left. (a') the same under power loss. (b) The left-over WAL's header bytes (file status, replay state) are arbitrary: no panic, own WAL untouched, the WAL is removed without being applied only if its header says REPLAYED, otherwise it is applied or moved aside.",
+    runs=[dict(pkg="executor", files=["c08_fixed.go", "c09_variable.go", "c11_range.go", "c01_walsim.go", "c06_replay.go", "c34_cleanup.go"], entries=["VerifC34CrashInCleanup", "VerifC34PowerLossInCleanup", "VerifC34HeaderStates"], must_reach=["entered", "restarted", "checked"], opts=dict(timeout=60))],
+    bounds=["one fixed-length bucket; left-over WAL with 2 committed transactions (same or different interval), values symbolic", "crash before every file-mutating call of the second start-up", "header: file-status and replay-state bytes arbitrary (0..255)"],
+    outside=["several left-over WAL files at once", "variable-length buckets (C02's duplication applies)"], stubs=FS_STUBS, assumptions=COMMON_ASSUME)
